@@ -351,7 +351,7 @@ func (x *Exec) specIdent(env *SpecEnv, e *EIdent) Value {
 					}
 					fail("spec: %s@pre: not a parameter", name)
 				}
-				if env.postMode {
+				if env.postMode && x.isParam(o) {
 					if v, ok := x.pre.vars[o]; ok {
 						return v
 					}
@@ -633,6 +633,10 @@ func (x *Exec) specCall(env *SpecEnv, e *ECall) Value {
 		return sc(EMod(asTerm(arg(0)), asTerm(arg(1))))
 	case "pow2":
 		return sc(Pow2(asTerm(arg(0))))
+	case "cabs":
+		return sc(App(SReal, "cabs", asTerm(arg(0))))
+	case "cx":
+		return sc(App(SCx, "cx", ToReal(asTerm(arg(0))), ToReal(asTerm(arg(1)))))
 	case "popcount8":
 		return sc(App(SInt, "popcount8", asTerm(arg(0))))
 	case "wrap64":
@@ -826,4 +830,16 @@ func (x *Exec) specAbstraction(env *SpecEnv, e *ECall) Value {
 	}
 	rs := x.modeSort(scalarSort(rt))
 	return sc(x.eng.absApp(prefix+"_"+sortTag(rs), ats, rs))
+}
+
+func (x *Exec) isParam(o *types.Var) bool {
+	if x.recv == o {
+		return true
+	}
+	for _, p := range x.params {
+		if p == o {
+			return true
+		}
+	}
+	return false
 }
